@@ -30,8 +30,19 @@ func (bs *BoundStackMap[T]) Push(key string, item T) {
 	defer bs.m.Unlock()
 
 	if bs.cc == bs.capacity {
-		delete(bs.dataMap, bs.orderedKeys[0])
+		oldest := bs.orderedKeys[0]
 		bs.orderedKeys = bs.orderedKeys[1:]
+		// the same key may have been pushed again since: its newer entry must stay retrievable
+		stillPresent := false
+		for _, k := range bs.orderedKeys {
+			if k == oldest {
+				stillPresent = true
+				break
+			}
+		}
+		if !stillPresent {
+			delete(bs.dataMap, oldest)
+		}
 	} else {
 		bs.cc++
 	}
